@@ -122,7 +122,7 @@ CHECKS.update({
 
 _THOROUGH = {
     "C01": " Thorough tier: one end-to-end run (370 confirmed, 7 shards inconclusive for harness reasons corrected afterwards, not re-run).",
-    "C06": " Thorough tier: one end-to-end run (166 confirmed, 5 shards timed out; re-sharded afterwards, not re-run).",
+    "C06": " Thorough tier: two end-to-end runs; in the second one every condition was confirmed except one shard of token/indep3-111 that exceeded its time budget; that scenario was reduced to 4 choice points afterwards, not re-run.",
     "C11": " Thorough tier: the end-to-end run was stopped after 56/69 conditions (44 confirmed, 12 over budget); depth reduced afterwards, not re-run.",
     "C08": " Thorough tier: defined but not run end-to-end in this round.",
     "C09": " Thorough tier: defined but not run end-to-end in this round.",
